@@ -181,6 +181,20 @@ impl Gen {
             55..=61 => self.random_signature(rng).await,
             62..=66 => self.early_burst(rng).await,
             67..=72 => {
+                if rng.chance(1, 4) {
+                    // a registration that names another round than the one that is open: the previous one (a delayed
+                    // or replayed request, a signer that read the epoch settings before the epoch change) or the next
+                    // one (a signer ahead of the aggregator). A party that did NOT register for the open round is
+                    // preferred: if such a request were taken for the open round it would change the signer set.
+                    let open_key = epoch + 1;
+                    let registered = self.w.regs.get(&open_key).cloned().unwrap_or_default();
+                    let fresh: Vec<usize> = (0..self.w.n()).filter(|p| !registered.contains(p)).collect();
+                    let p = if fresh.is_empty() { rng.below(self.w.n() as u64) as usize } else { *rng.pick(&fresh) };
+                    let key = if rng.chance(2, 3) { epoch } else { epoch + 2 };
+                    self.w.register(p, key).await;
+                    self.w.tags.insert(if key == epoch { "reg-for-previous-round".into() } else { "reg-for-next-round".into() });
+                    return;
+                }
                 let all = !self.cfg.sparse_regs && rng.chance(2, 3);
                 self.register_some(rng, all).await;
             }
